@@ -171,9 +171,11 @@ int main(){
 				if(kind == "small" ? full[i-1].key > full[i].key : full[i-1].key < full[i].key) orc += " !oracle contribution-order";
 			// independent definition: hv(S) - hv(S \ i)
 			long long hvAll = cellHv(P, ref);
+			std::vector<long long> specv(n, 0);
 			for(std::size_t i = 0; i != n; ++i){
 				Points Q = P; Q.erase(Q.begin() + i);
 				long long want = hvAll - cellHv(Q, ref);
+				specv[i] = want;
 				if(seen[i] && std::fabs(val[i] - (double)want) > 1e-6 * (1 + std::fabs((double)want))){ orc += " !oracle contribution-def"; break; }
 			}
 			// (2) the requested k: values in reported order; each must be the contribution of its index
@@ -190,7 +192,7 @@ int main(){
 			for(std::size_t i = 0; i != n; ++i) os << (i ? "," : "") << byIdx[i];
 			os << "] sel=[";
 			for(std::size_t i = 0; i != selv.size(); ++i) os << (i ? "," : "") << selv[i];
-			os << "]";
+			os << "] spec=" << showV(specv);
 		}else if(op == "ssp" && parseInts(t, 1, a) && a.size() >= 4 && a.size() == 4 + (std::size_t)(2*a[1])){
 			std::size_t k = a[0], n = a[1];
 			RealVector ref = vec(a, 2, 2);
